@@ -93,7 +93,10 @@ Consume ==
           /\ ctx' = IF e.ev = "call" /\ e.st # "OK" /\ Mutating(e) THEN ctx \cup {"failed"}
                     ELSE IF e.ev = "restart" THEN ctx \cup {"restart"}
                     ELSE IF e.ev = "crash" THEN ctx \cup {"crash"} ELSE ctx
-          /\ IF bad THEN UNCHANGED <<s, bad>>
+          /\ IF bad
+             THEN (* the reference state is out of step, but the structure of the disk can still be judged *)
+                  /\ UNCHANGED <<s, bad>>
+                  /\ IF e.ev = "snap" /\ FS!StructRules(e) # <<>> THEN Report(l, FS!StructRules(e), e) ELSE TRUE
              ELSE CASE e.ev = "call" ->
                          LET v == Check(s, e) IN
                          IF v = <<>> THEN s' = Next(s, e) /\ bad' = FALSE
